@@ -26,9 +26,6 @@
 #include <QFuture>
 #include "vp_harness.h"
 #include "vp_dom.h"
-#ifndef VP_MAP_CAP
-#define VP_MAP_CAP 4
-#endif
 #include "vp_slotmap.h"
 extern "C" { unsigned vp_c12_dom_nchildren(const QDomElement *); unsigned vp_c12_dom_nattrs(const QDomElement *); }
 
@@ -37,9 +34,11 @@ extern "C" { unsigned vp_c12_dom_nchildren(const QDomElement *); unsigned vp_c12
 #include "QXmppRosterIq.h"
 #include "QXmppPresence.h"
 // class-level container models: must precede the first use of these QMap instantiations
-template<> class QMap<QString, QXmppRosterIq::Item> : public VpSlotMap<QXmppRosterIq::Item> { };
-template<> class QMap<QString, QXmppPresence> : public VpSlotMap<QXmppPresence> { };
-template<> class QMap<QString, QMap<QString, QXmppPresence>> : public VpSlotMap<QMap<QString, QXmppPresence>> { };
+#define ROSTER_CAP 4     /* 2 contacts in the pre-state + 2 pushed items */
+#define PRES_CAP 3       /* 2 contacts / resources in the pre-state + 1 new */
+template<> class QMap<QString, QXmppRosterIq::Item> : public VpSlotMap<QXmppRosterIq::Item, ROSTER_CAP> { };
+template<> class QMap<QString, QXmppPresence> : public VpSlotMap<QXmppPresence, PRES_CAP> { };
+template<> class QMap<QString, QMap<QString, QXmppPresence>> : public VpSlotMap<QMap<QString, QXmppPresence>, PRES_CAP> { };
 #include "QXmppClient.h"
 #include "QXmppConfiguration.h"
 #include "client/QXmppRosterManager.cpp"
@@ -144,7 +143,7 @@ static void symRoster(QXmppRosterManagerPrivate *d, RefRoster &ref)
         k[i] = vpSymString(3); QString nm = vpSymString(1);
         unsigned t = vp_u8(); vp_assume(t <= 4 || t == 8);   // any SubscriptionType value
         QXmppRosterIq::Item it; it.setBareJid(k[i]); it.setName(nm); it.setSubscriptionType(QXmppRosterIq::Item::SubscriptionType(t));
-        new (&d->entries.cell[i].v) QXmppRosterIq::Item(it); d->entries.key[i] = k[i];
+        d->entries.val[i] = it; d->entries.key[i] = k[i];
         ref.key[i] = k[i]; ref.name[i] = nm; ref.type[i] = int(t);
     }
     vp_assume(!(k[0] == k[1]));
@@ -158,11 +157,11 @@ static void checkRoster(const QXmppRosterManagerPrivate *d, const RefRoster &ref
     const QString probe = vpSymString(3);
     bool inRef = false, inView = false; QString refName; int refType = -1;
     for (int i = 0; i < REF_CAP; i++) { if (ref.used[i] && ref.key[i] == probe) { inRef = true; refName = ref.name[i]; refType = ref.type[i]; } }
-    for (int i = 0; i < VP_MAP_CAP; i++) {
+    for (int i = 0; i < ROSTER_CAP; i++) {
         if (d->entries.used[i] && d->entries.key[i] == probe) {
             vp_assert(!inView, "C12 a contact appears once in the roster view");
             inView = true;
-            const QXmppRosterIq::Item &it = d->entries.cell[i].v;
+            const QXmppRosterIq::Item &it = d->entries.val[i];
             vp_assert(inRef, "C12 roster view contains no contact beyond last full roster + authorised pushes");
             if (inRef) {
                 vp_assert(it.bareJid() == probe, "C12 contact is stored under its own bare JID");
@@ -334,14 +333,14 @@ static void symPresences(QXmppRosterManagerPrivate *d, RefPresence &rp, int nres
 {
     for (int i = 0; i < 2; i++) {
         rp.bare[i] = vpSymString(2);
-        new (&d->presences.cell[i].v) ResMap(); d->presences.key[i] = rp.bare[i];
-        ResMap &inner = d->presences.cell[i].v;
+        d->presences.key[i] = rp.bare[i];
+        ResMap &inner = d->presences.val[i];
         for (int j = 0; j < 2; j++) {
             rp.resUsed[i][j] = false;
             if (j >= nres) continue;
             rp.res[i][j] = vpSymString(2);
             QXmppPresence p; p.setFrom(rp.bare[i] + L("/") + rp.res[i][j]);
-            new (&inner.cell[j].v) QXmppPresence(p); inner.key[j] = rp.res[i][j];
+            inner.val[j] = p; inner.key[j] = rp.res[i][j];
             bool u = vp_bool(); inner.used[j] = u; rp.resUsed[i][j] = u;
         }
         if (nres > 1) vp_assume(!(rp.res[i][0] == rp.res[i][1]));
@@ -359,16 +358,16 @@ static bool refHasPresence(const RefPresence &rp, const QString &b, const QStrin
 }
 static bool viewHasPresence(const QXmppRosterManagerPrivate *d, const QString &b, const QString &r)
 {
-    for (int i = 0; i < VP_MAP_CAP; i++) {
+    for (int i = 0; i < PRES_CAP; i++) {
         if (!d->presences.used[i] || !(d->presences.key[i] == b)) continue;
-        const ResMap &inner = d->presences.cell[i].v;
-        for (int j = 0; j < VP_MAP_CAP; j++) { if (inner.used[j] && inner.key[j] == r) return true; }
+        const ResMap &inner = d->presences.val[i];
+        for (int j = 0; j < PRES_CAP; j++) { if (inner.used[j] && inner.key[j] == r) return true; }
     }
     return false;
 }
 static bool viewPresencesEmpty(const QXmppRosterManagerPrivate *d)
 {
-    for (int i = 0; i < VP_MAP_CAP; i++) { if (d->presences.used[i]) return false; }
+    for (int i = 0; i < PRES_CAP; i++) { if (d->presences.used[i]) return false; }
     return true;
 }
 
@@ -518,6 +517,14 @@ static void dbgPresence(int type, int nres)
     const QString from = vpSymString(FROM_MAX);
     p.setFrom(from); p.setType(QXmppPresence::Type(type));
     m->_q_presenceReceived(p);
+}
+extern "C" void h_dbg6()
+{
+    symOwnJid();
+    Mgr m; RefPresence rp;
+    symPresences(m.d, rp, 1);
+    QString b = vpSymString(2), r = vpSymString(2);
+    m.d->presences[b].remove(r);
 }
 extern "C" void h_dbg3() { dbgPresence(QXmppPresence::Unavailable, 1); }
 extern "C" void h_dbg4() { dbgPresence(QXmppPresence::Available, 1); }
